@@ -1087,9 +1087,14 @@ def q8(ctx, fns, m):
                 probs.append('the forward walk does not advance through next')
             if b['adv'] != 1:
                 probs.append('the backward walk does not advance through prev')
-            if a['cnt'] is None or (a['init'], a['step'], a['cmpd']) != (0, 1, 'old'):
+            if a['cnt'] is None or a.get('init') is None or a.get('step') is None or a.get('cmpd') is None:
+                # counted in another way (a count-down of a computed distance, ..): not this rule's template
+                unks.append('the forward walk does not count positions from a constant against idx')
+            elif (a['init'], a['step'], a['cmpd']) != (0, 1, 'old'):
                 probs.append('forward positions are not 0,1,2,..: counter starts at %s, steps by %s and the %s value is compared with idx' % (a.get('init'), a.get('step'), a.get('cmpd')))
-            if b['cnt'] is None or (b['init'], b['step'], b['cmpd']) != (0, -1, 'new'):
+            if b['cnt'] is None or b.get('init') is None or b.get('step') is None or b.get('cmpd') is None:
+                unks.append('the backward walk does not count positions from a constant against idx')
+            elif (b['init'], b['step'], b['cmpd']) != (0, -1, 'new'):
                 probs.append('backward positions are not -1,-2,..: counter starts at %s, steps by %s and the %s value is compared with idx' % (b.get('init'), b.get('step'), b.get('cmpd')))
             # which walk is taken: idx >= 0 forward - the branch that separates the two walks (the entry, or behind fast paths)
             okdir = None
@@ -1118,7 +1123,10 @@ def q8(ctx, fns, m):
             if okdir is None:
                 unks.append('no single branch separates the forward from the backward walk')
             elif not okdir:
-                probs.append('the walk direction is not chosen by idx >= 0 (forward) / idx < 0 (backward)')
+                if any('does not count positions' in u for u in unks):
+                    unks.append('the walk direction is chosen by something else than the sign of idx')     # walks that count a computed distance
+                else:
+                    probs.append('the walk direction is not chosen by idx >= 0 (forward) / idx < 0 (backward)')
             # returned values: payload of the current node or null
             rets = [i for i in f.instrs() if i.op == 'ret']
             for r in rets:
@@ -1166,6 +1174,9 @@ def q8(ctx, fns, m):
             w = ws[0]
             if w['start'] != 0 or w['adv'] != 0:
                 probs.append('the walk does not go from head.next through next (start field %s, advance field %s)' % (w['start'], w['adv']))
+            if w['init'] is None or w['step'] is None or w['cmpd'] is None:
+                rep.unk('Q8', n, 'the walk does not count positions from a constant against idx', loc=f.loc(f.entry.instrs[0]))
+                continue
             if (w['init'], w['step'], w['cmpd']) != (0, 1, 'old'):
                 probs.append('positions are not 0,1,2,..')
         (rep.bad if probs else rep.ok)('Q8', n, '; '.join(probs) or 'walks from head.next through next with positions 0,1,2,..', **({'key': '%s: positional walk' % n, 'loc': f.loc(f.entry.term)} if probs else {}))
